@@ -844,6 +844,49 @@ def check_parent(ctx, rule, q='Tree::parent', edge_path=None):
         ctx.ok(rule, site, '%s (6 cases)' % what, b.span)
 
 
+def check_traversal_new(ctx, rule, ty, site=None):
+    """`<ty as TraversalMut>::new(tree, start)`: the size bounds of a fresh traversal never exclude the true number of items -- the lower bound
+    may be the node count (edge traversal: node count - 1) only when the start node is the root of the tree; for any other start node at most
+    the start node itself is known (0 for an edge traversal); the upper bound is the node count."""
+    q = '<%s as TraversalMut>::new' % ty
+    bodies = bodies_of(ctx, q)
+    site = site or (q + '#bounds')
+    if len(bodies) != 1:
+        ctx.lost(rule, q)
+        return
+    b = bodies[0]
+    edge = 'Edge' in ty
+    R_ = atom('R')
+    t = tree(some(R_), R=node('R', isleaf=False), A=node('A', parent=some(R_)))
+    ln, ln1 = ('len', t[2]['arena']), ('len-1', t[2]['arena'])
+    allowed_root = [0, ln1] + ([] if edge else [1, ln])
+    allowed_other = [0] + ([] if edge else [1])
+    wrong, unknown = [], []
+    for name, start, allowed in (('a traversal from the root', R_, allowed_root), ('a traversal from another node', A, allowed_other)):
+        ext = slab_externals()
+        ext['#next'] = lambda pipe: NONE          # the start frontier is not what this contract is about: a start node without children
+        ext['#consts'] = {'K': 2}
+        try:
+            got = run_case(ctx.facts, b, [t, start], ext)
+        except Unknown as e:
+            unknown.append('%s: %s' % (name, e))
+            continue
+        if not (isinstance(got, tuple) and got[:1] == ('struct',) and 'size_lb' in got[2] and 'size_ub' in got[2]):
+            unknown.append('%s: result is not the traversal struct' % name)
+            continue
+        lb, ub = got[2]['size_lb'], got[2]['size_ub']
+        if not any(lb == a for a in allowed):
+            wrong.append('%s starts with lower bound %s' % (name, show(lb) if not (isinstance(lb, tuple) and lb[:1] in (('len',), ('len-1',))) else ('the node count' if lb[0] == 'len' else 'the node count - 1')))
+        if ub not in (ln,) + ((ln1,) if edge else ()):
+            wrong.append('%s starts with an upper bound that is not the node count' % name)
+    if wrong:
+        ctx.bad(rule, site, '; '.join(wrong)[:300], b.span)
+    elif unknown:
+        ctx.undecided(rule, site, 'body outside the case-interpreted fragment (%s)' % '; '.join(unknown)[:240], b.span)
+    else:
+        ctx.ok(rule, site, 'the lower bound counts the whole tree only for a start at the root; upper bound = node count', b.span)
+
+
 def run(ctx, rule, names):
     for q in names:
         if q in TABLES:
